@@ -49,6 +49,9 @@ type vRelay struct {
 	skip int
 	// texts: receive-stream failures carry one of the server's status texts
 	texts bool
+	// stalled: stream Sends block (flow control: nobody drains the stream)
+	// until the context the stream was opened with is cancelled
+	stalled bool
 	// relay restart: every stream opened before it fails once
 	restartCh chan struct{}
 	seen      [][]byte
@@ -159,6 +162,13 @@ func (s *vSendStream) Send(m *hashmailrpc.CipherBox) error {
 	}
 	if s.dead {
 		return vErrStream
+	}
+	s.r.mu.Lock()
+	stalled := s.r.stalled
+	s.r.mu.Unlock()
+	if stalled {
+		<-s.ctx.Done()
+		return s.ctx.Err()
 	}
 	switch s.r.fault("send") {
 	case 1:
